@@ -399,6 +399,9 @@ class StmtMixin:
     def havoc_loop(self, st, body_nodes, lc, line, extra_names=()):
         names, attrs = assigned_names(body_nodes)
         names |= set(extra_names)
+        topc = self.m.contracts.get(self.cur_fn_stack[0])
+        if topc is not None and len(self.cur_fn_stack) == 1:
+            names |= set(topc.ghost_init)
         for n in sorted(names):
             declared = (lc.types.get(n) if lc else None) or self.local_types.get(n)
             cur = st.env.get(n)
